@@ -5,6 +5,7 @@ import (
 	"fmt"
 	"math/big"
 	"math/bits"
+	"os"
 	"sort"
 	"strconv"
 
@@ -13,6 +14,14 @@ import (
 	"verifmc/eng"
 	"verifmc/ref"
 )
+
+// RepoDir is the tree the checker was built against (/repo unless VERIF_REPO points a dev-time run at a scratch worktree).
+func RepoDir() string {
+	if d := os.Getenv("VERIF_REPO"); d != "" {
+		return d
+	}
+	return "/repo"
+}
 
 var LibModes = [6]dec.RoundingMode{dec.ToNearestEven, dec.ToNearestAway, dec.ToZero, dec.AwayFromZero, dec.ToNegativeInf, dec.ToPositiveInf}
 
